@@ -777,10 +777,15 @@ def attribute(drv, case, res, cfg, eager, upto):
     return keep
 
 
+ALTER_KEY = "C02/alter/literal-equal-to-stale-cached-value-keeps-the-CONST-value"
 MPLEX_KEY = "C02/mplex/lookback-restores-pointers-with-whence-as-file-mode"
 MPLEX_CACHE_KEY = "C02/mplex/start-value-cache-survives-putdata-on-an-input"
 
 WITNESSES = {
+    ALTER_KEY: dict(
+        enc="none", raws=[dict(name="r0", type="UINT8", vals=list(range(100)))], consts={"km": 2, "kb": -8},
+        derived=[dict(name="d0", kind="L", m=2, b=-8, mc="km", bc="kb", **{"in": "r0"})],
+        ops=[("a", "L", "d0", "r0", 3, 0), ("g", "d0", 10, 3, "i64")]),
     "C02/bzip2/seek-to-before-window": dict(
         enc="bzip2", raws=[dict(name="a", type="UINT8", vals=list(range(200)))],
         ops=[("g", "a", 150, 4, "i64"), ("g", "a", 3, 4, "i64")]),
@@ -980,6 +985,9 @@ def main():
         if key is None and in_model(case, strict=False) and len(res) == len(case["ops"]):
             hits = attribute(drv, case, res, cfg, True, i)
             if len(hits) >= 1: key = KEYS[hits[0]]
+        if key is None and any(f.get("mc") for f in case.get("derived", [])) and any(
+                o[0] == "a" and o[1] == "L" and [f for f in case["derived"] if f["name"] == o[2] and f.get("mc")] for o in case["ops"][:i]):
+            key = ALTER_KEY
         if key is None and got.startswith("E -5") and any(f["kind"] == "X" for f in case.get("derived", [])) \
                 and any(o[0] == "l" for o in case["ops"]) and case["enc"] in ("gzip", "bzip2", "lzma"):
             key = MPLEX_KEY
